@@ -31,7 +31,7 @@ CLAIMED = {
             "Trusted: refwire/refcol as generators of well-formed server streams. The behaviour without OnResult (fails when a block follows one with rows) is taken from the documentation of Query.OnResult."),
     "C08": ("exploration", "DESIGN.md §4 C08",
             "bounded-exhaustive enumeration of transport segmentations of enumerated server streams on the simulated connection (reads stop at chosen cut offsets; idle gaps drive the fake clock past the read deadline)",
-            "Every stream of the C03 alphabet up to length 2 (thorough 3) at two revisions, plain and LZ4, is delivered one byte per read, split in two at every offset, with a gap longer than the read timeout before every packet, in all 2^(n-1) ways when it is at most 16 bytes long, and (thorough) in three pieces at every pair of offsets when at most 96 bytes long; also with the last bytes delivered together with EOF, with idle time inside a packet, with the gaps repeated under a far context deadline, and on a client with a past (idle longer than the handshake time-out; an earlier query whose context deadline has passed); outcome must equal the reference interpreter's (= unsegmented) outcome.",
+            "Every stream of the C03 alphabet up to length 2 (thorough 3) at two revisions, plain and LZ4, is delivered one byte per read, split in two at every offset, with a gap longer than the read timeout before every packet, in all 2^(n-1) ways when it is at most 16 bytes long, and (thorough) in three pieces at every pair of offsets when at most 96 bytes long; also with the last bytes delivered together with EOF, with idle time inside a packet, with the gaps repeated under a far context deadline, and on a client with a past (idle longer than the handshake time-out; an earlier query whose context deadline has passed); outcome must equal the reference interpreter's (= unsegmented) outcome, and a Ping issued on the same client afterwards must end as it does after the same stream delivered in one piece (what Do left unread is the same bytes wherever they sit).",
             "Trusted: as C03. Bytes consumed from the transport are not compared (the client's buffered reader legitimately reads ahead). proto.Reader-level segmentation of whole blocks is part of C07's corpus run."),
     "C09": ("model_checking", "DESIGN.md §4 C09",
             "explicit enumeration of all OnInput callback histories up to a depth against a list-of-values reference model; every history is executed on the real client and the blocks on the wire are decoded by the reference model",
